@@ -15,13 +15,16 @@ OBLIGATIONS.append(dict(name="packfile_flags", harness="harness/C17_packfile.c",
     incdirs=["bin/gensquashfs/src"], unwind=4, tiers=["quick", "thorough"], timeout=300, reach=["packed"],
     fp_map={"flush": ["out_flush"], "destroy": ["obj_destroy"]},
     functions=["pack_file (bin/gensquashfs/src/mkfs.c)"], bound="any file size, any legal block size, -T on/off, any user-settable flag combination on the node"))
-def fe(bs, napp, tiers):
-    return dict(name="frontend_block_split_bs%d_n%d" % (bs, napp), harness="harness/C01_frontend.c", sources=["lib/sqfs/src/inode.c", "lib/util/src/alloc.c"],
-        included_sources=["lib/sqfs/src/block_processor/frontend.c"], incdirs=["lib/sqfs/src/block_processor"], defines=dict(BS=bs, NAPP=napp), unwind=2 * bs + 6,
-        tiers=tiers, timeout=300, fp_map={"submit": ["submit_stub"], "get_status": ["status_stub"]}, reach=["failed", "dont_fragment", "fragment", "whole_blocks"],
+def fe(bs, sizes, tiers):
+    napp = len(sizes)
+    return dict(name="frontend_block_split_bs%d_%s" % (bs, "_".join(str(x) for x in sizes)), harness="harness/C01_frontend.c", sources=["lib/sqfs/src/inode.c", "lib/util/src/alloc.c"],
+        included_sources=["lib/sqfs/src/block_processor/frontend.c"], incdirs=["lib/sqfs/src/block_processor"], defines=dict(BS=bs, NAPP=napp, SIZES=",".join(str(x) for x in sizes)), unwind=2 * bs + 6, unwindset={"get_new_block.0": 1},
+        tiers=tiers, timeout=300, fp_map={"submit": ["submit_stub"], "get_status": ["status_stub"]}, reach=["failed"], allow_unreached=True,
         functions=["sqfs_block_processor_begin_file, sqfs_block_processor_append, sqfs_block_processor_end_file, get_new_block, add_sentinel_block, enqueue_block (lib/sqfs/src/block_processor/frontend.c)"],
-        bound="block size scaled to %d bytes, a file of 1..%d symbolic bytes delivered in %d appends of symbolic sizes, any user flags, no back-pressure, submit may fail" % (bs, 2 * bs + 1, napp))
-OBLIGATIONS += [fe(2, 2, ["quick", "thorough"]), fe(2, 3, ["thorough"]), fe(3, 2, ["thorough"])]
+        bound="block size scaled to %d bytes, a file delivered in appends of %s bytes (content symbolic), any user flags, no back-pressure, submit may fail" % (bs, "+".join(str(x) for x in sizes)))
+_FE_Q = [(1, 1), (2, 1), (1, 2), (2, 3), (4,)]
+_FE_T = [(a, b) for a in (1, 2, 3, 4) for b in (1, 2, 3, 4) if a + b <= 5 and (a, b) not in _FE_Q] + [(1, 1, 1), (1, 2, 2), (2, 2, 1), (5,), (3,)]
+OBLIGATIONS += [fe(2, s, ["quick", "thorough"]) for s in _FE_Q] + [fe(2, s, ["thorough"]) for s in _FE_T] + [fe(3, (2, 2), ["thorough"]), fe(3, (3, 4), ["thorough"]), fe(3, (1, 5), ["thorough"])]
 ASSUMPTIONS = ["file/stream constructors around pack_file are recording stubs", "compressor contract stub, xxh32 recording stub in the worker obligation"]
 OUTSIDE = ["first-match-wins over a parsed sort file (line reader + fnmatch) is not encoded; the flag keyword table (decode_flags: string compares over the tokeniser) did not finish within 250 s and is not registered", "the on-disk effect of DONT_FRAGMENT / DONT_DEDUPLICATE is checked in C01 (frontend) and C08 (block writer)"]
 META = dict(
